@@ -43,6 +43,8 @@ def run(ctx):
         ctx.guard("new-solvables" + tag, c09.new_solvables, ctx, crate, crs, tag)
         # a Cancelled outcome must not leave a wrong answer behind in the persistent cache: the cancellation error of a
         # sub-query is propagated, never turned into an (empty) list that is then stored (rule of C12, cache only)
+        import core
+        ctx.guard("core" + tag, core.soundness, ctx, crate, crs, tag)      # see rules/core.py
         import c12
         ctx.guard("result-must-use" + tag, c12.results_used, ctx, crate, tag, ("resolvo::solver::cache::",), 0)
 
